@@ -48,6 +48,18 @@ def make_visitor(T, opts, unresolved_mark, comments=None):
     return Adt('VueJsxTransformVisitor', None, [init[n] for n, _ in fs], [n for n, _ in fs])
 
 
+def construct_visitor(it, ctx, opts, unresolved_mark, comments):
+    """the visitor's initial state comes from the real `VueJsxTransformVisitor::new` in the dump, not from the harness"""
+    cands = [f for k, fs in it.prog.fns.items() for f in fs if k.endswith('>::new') and 'VueJsxTransformVisitor' in (f.ret_ty or '') and len(f.params) == 3]
+    if len(cands) != 1:
+        raise Unsupported('VueJsxTransformVisitor::new not found uniquely in the MIR dump (%d candidates)' % len(cands))
+    vis = it.run(ctx, cands[0], [make_options(it.T, opts), unresolved_mark, Some(Opaque('comments', comments or {}))])
+    vis = deref(vis)
+    if not isinstance(vis, Adt) or vis.ty != 'VueJsxTransformVisitor':
+        raise Unsupported('VueJsxTransformVisitor::new returned %r' % (vis,))
+    return vis
+
+
 # ---------------------------------------------------------------- comments model
 @model(r'<C as Comments>::with_leading::')
 def m_with_leading(it, ctx, a, m, f):
@@ -205,7 +217,8 @@ def setup_ctx(ctx, resp):
 def run_module(it, ctx, program, opts, resp, comments=None):
     """execute the real visit_mut_module on a parsed Program (Adt). Mutates `program`. -> visitor Adt"""
     setup_ctx(ctx, resp)
-    vis = make_visitor(it.T, opts, resp['unresolved_mark'], comments if comments is not None else comments_map(resp))
+    cm = comments if comments is not None else comments_map(resp)
+    vis = construct_visitor(it, ctx, opts, resp['unresolved_mark'], cm)
     module = program.fields[0]
     tr = traversal(it)
     holder = [module]
